@@ -83,18 +83,6 @@ def _loop_rules(r, fn, cfg, head, work, marker, what_work, what_marker):
     r.count(4 * len(cfg.nodes))
 
 
-def _clock_locals(fnorm, n):
-    """Locals whose every reaching definition at n is ``time.time()``."""
-    out = {}
-    for name, ds in fnorm.rd.get(n.id, {}).items():
-        if not ds or any(d < 0 for d in ds):
-            continue
-        vals = [assign_value(fnorm.cfg.nodes[d], name) for d in ds]
-        if all(isinstance(v, ast.Call) and call_name(v) == "time.time" and not v.args for v in vals):
-            out[name] = "time.time()"
-    return out
-
-
 def _inside(loop_ast, node_ast):
     return any(x is node_ast for st in loop_ast.body for x in own_nodes(st))
 
@@ -164,9 +152,6 @@ def run(ctx: Context):
         got_dir = cn.norm(cwork, arg(c, 2, "prefixdir"))
         r.require(got_dir == norm_src("os.path.join(self.sharedir, self.prefixes[%s])" % I), sc, sc.loc(c),
                   "process_prefixdir is given directory %s" % got_dir)
-        a4 = arg(c, 4, "start_slice")
-        r.require(isinstance(a4, ast.Name) and a4.id == first_positional_params(sc)[0], sc, sc.loc(c),
-                  "process_prefixdir is given slice start %s" % (src(sc, a4) if a4 is not None else None))
         mv = assign_value(cmark, "self.last_complete_prefix_index")
         r.require(isinstance(mv, ast.Name) and mv.id == I, sc, sc.loc(cmark.ast),
                   "last_complete_prefix_index is set to %s, not to the index just processed (%s)" % (src(sc, mv), I))
@@ -179,7 +164,7 @@ def run(ctx: Context):
     with ctx.rule("C27.2", "R3", "resume: a bucket is processed iff last-complete-bucket is None or < bucket, skipped "
                   "only under bucket <= last-complete-bucket; sorted buckets (or the cache entry of this prefix "
                   "index), sorted prefixes, loop from last_complete_prefix_index+1; index<->prefix mapping in "
-                  "load_state/save_state", expected=10) as r:
+                  "load_state/save_state", expected=11) as r:
         LC = norm_src("self.state['last-complete-bucket']")
 
         def go(n, lab):
@@ -252,6 +237,14 @@ def run(ctx: Context):
                 continue
             r.violation(sc, sc.loc(n.ast), "process_prefixdir gets a bucket list that was neither listed for prefix index "
                         "%s nor taken from the cache entry with that index (path: %s)" % (I, w.brief()), w)
+        for (n, w) in find_path_avoiding(ccfg, lambda n: n is cwork, gate_node=stores(BV), kill=lambda n: n is chead):
+            r.violation(sc, sc.loc(n.ast), "process_prefixdir can be reached with a bucket list (%s) that was not bound in "
+                        "this iteration: the previous prefix's list is reused (path: %s)" % (BV, w.brief()), w)
+        # after a failed listing the handler rebinds the list (to nothing) before it is cached / used
+        for h in [x for x in ccfg.nodes if x.kind == "except" and _inside(chead.ast, x.ast)]:
+            for (s0, w) in find_path_from_to_avoiding(ccfg, lambda x, _h=h: x is _h, gate_node=stores(BV),
+                                                      ends=lambda x: x is cwork or stores("self.bucket_cache")(x)):
+                r.violation(sc, sc.loc(h.ast), "after a failed listing the stale bucket list %s is used" % BV, w)
         cache_reads = [n for n in ccfg.nodes if n.kind == "stmt" and BV in node_stores(n) and n is not lst
                        and not (isinstance(n.ast, ast.Assign) and isinstance(n.ast.value, ast.List) and not n.ast.value.elts)]
         for n in cache_reads:
@@ -303,6 +296,20 @@ def run(ctx: Context):
                 continue
             r.violation(init, init.loc(s.ast), "self.prefixes is left unsorted: last_complete_prefix_index and the bucket "
                         "comparison assume ascending prefixes", w)
+        # the prefix table itself (compat-frozen): every 10-bit prefix, as the two leading base32 characters
+        want_tab = [norm_src('[si_b2a(struct.pack(">H", i << (16-10)))[:2] for i in range(2**10)]'),
+                    norm_src('[p.decode("ascii") for p in self.prefixes]')]
+        got_tab = [FlowNorm(init).norm(n, assign_value(n, "self.prefixes")) for n in pst]
+        r.site(init, pst[0].ast, "prefix table")
+        r.require(got_tab == want_tab, init, init.loc(pst[0].ast), "the prefix table is built as %s; expected the 1024 "
+                  "two-character prefixes %s - shares in a missing prefix directory are never visited" % (got_tab, want_tab))
+        sd = idx.func("storage.common:storage_index_to_dir")
+        rets = sd.cfg().find(is_return)
+        sdn = FlowNorm(sd)
+        r.require(len(rets) == 1 and sdn.norm(rets[0], rets[0].ast.value) in (
+            norm_src("os.path.join(si_b2a(storageindex).decode('ascii')[:2], si_b2a(storageindex).decode('ascii'))"),
+            norm_src("os.path.join(sia[:2], sia)")), sd, sd.loc(),
+            "storage_index_to_dir no longer files a share under the first two base32 characters of its storage index")
         # load_state must come after the prefixes exist and are sorted
         for (n, w) in find_path_avoiding(icfg, has_call_named("self.load_state"),
                                          gate_node=has_call_named("self.prefixes.sort")):
@@ -389,17 +396,12 @@ def run(ctx: Context):
     with ctx.rule("C27.3", "R2", "start_slice saves the state on the normal and on the TimeSliceExceeded exit and "
                   "re-arms its timer unless stopped; stopService and the end of a cycle save; save_state writes "
                   "get_state() through the serializer; only start_slice enters start_current_prefix; the lease "
-                  "crawler inherits the traversal", expected=6) as r:
+                  "crawler inherits the traversal", expected=7) as r:
         scfg2 = ss.cfg()
         call_n = _one(scfg2.find(has_call_named("self.start_current_prefix")), "self.start_current_prefix call in start_slice")
         r.site(ss, call_n.ast, "traversal call")
         c = calls_at(call_n, "start_current_prefix")[0]
-        a0 = arg(c, 0, "start_slice")
         snorm = FlowNorm(ss)
-        r.require(isinstance(a0, ast.Name) and a0.id in _clock_locals(snorm, call_n), ss, ss.loc(c),
-                  "the slice start handed to the traversal is %s, not a time.time() reading of this slice" % (
-                      src(ss, a0) if a0 is not None else None))
-        # ... taken in this call, before the traversal (a stale start would end every slice at once)
         handlers = [cfg_n for (d, lab) in scfg2.succ[call_n.id] if lab == "exc"
                     for cfg_n in [scfg2.nodes[d]] if cfg_n.kind == "except"]
         catching = [h for h in handlers if h.ast.type is not None and "TimeSliceExceeded" in
@@ -472,6 +474,38 @@ def run(ctx: Context):
                   call_name(assign_value(ser[0], "self._state_serializer")) == "_LeaseStateSerializer" and
                   attr_path(arg(assign_value(ser[0], "self._state_serializer"), 0)) == first_positional_params(init)[1],
                   init, init.loc(), "self._state_serializer is not _LeaseStateSerializer(statefile)")
+        # load_state: self.state is what the serializer returned (or the fresh default when there is none)
+        ls = idx.func(SC + ".load_state")
+        lcfg = ls.cfg()
+        loads = [n for n in lcfg.nodes if n.kind == "stmt" and isinstance(n.ast, ast.Assign)
+                 and isinstance(n.ast.value, ast.Call) and call_name(n.ast.value) == "self._state_serializer.load"
+                 and len(n.ast.targets) == 1 and isinstance(n.ast.targets[0], ast.Name)]
+        ld = _one(loads, "<state> = self._state_serializer.load() in load_state")
+        sv_name = ld.ast.targets[0].id
+        sst = _one(lcfg.find(stores("self.state")), "store of self.state in load_state")
+        r.site(ls, ld.ast, "state loaded")
+        v = assign_value(sst, "self.state")
+        r.require(isinstance(v, ast.Name) and v.id == sv_name, ls, ls.loc(sst.ast),
+                  "self.state is bound to %s, not to the loaded state %s" % (src(ls, v) if v is not None else "?", sv_name))
+        for (n, w) in find_path_avoiding(lcfg, lambda x: x is sst, gate_node=lambda x: x is ld):
+            if any(a.kind == "except" for (a, _l) in w.path):
+                continue
+            r.violation(ls, ls.loc(sst.ast), "self.state is set without reading the saved state", w)
+        handler_stmts = [x for t in func_own_nodes(ls) if isinstance(t, ast.Try) for h in t.handlers
+                         for st in h.body for x in own_nodes(st)]
+        for n in lcfg.nodes:
+            if n.kind == "stmt" and sv_name in node_stores(n) and n is not ld \
+                    and not any(x is n.ast for x in handler_stmts):
+                r.violation(ls, ls.loc(n.ast), "the loaded state is replaced outside the no-saved-state handler: %s" % src(ls, n.ast))
+        # startService marks the service running (start_slice re-arms only while self.running)
+        sta_up = [c2 for c2 in calls_in_func(sta, "startService") if call_name(c2).endswith("MultiService.startService")
+                  or call_name(c2).startswith("super")]
+        r.require(bool(sta_up), sta, sta.loc(), "startService does not call MultiService.startService: self.running stays "
+                  "false and start_slice never schedules a second slice")
+        if sta_up:
+            upn = [n for n in sta.cfg().nodes if any(c2 is sta_up[0] for c2 in node_calls(n))][0]
+            for (n, w) in find_path_avoiding(sta.cfg(), lambda n: n.kind == "exit", gate_node=lambda n: n is upn):
+                r.violation(sta, sta.loc(), "startService can return without MultiService.startService", w)
         # who may enter the traversal
         bad, badrefs, total = callers_outside(idx, "start_current_prefix", [SC + ".start_slice"])
         for cs in bad:
@@ -550,6 +584,20 @@ def run(ctx: Context):
         opens = [c2 for c2 in calls_in_func(dj) if call_tail(c2) == "open"]
         r.require(len(opens) == 1 and attr_path(opens[0].func.value) == djp[1], dj, dj.loc(),
                   "_dump_json_to_file does not open its target parameter")
+        wr = [c2 for c2 in calls_in_func(dj, "write")]
+        ok = len(wr) == 1 and len(wr[0].args) == 1
+        if ok:
+            dfs = def_exprs(dj)
+            fed = [x for x in own_nodes(wr[0].args[0]) if isinstance(x, ast.Call)]
+            for nm in depends_on(dj, wr[0].args[0]):
+                for dv in dfs.get(nm, []):
+                    fed += [x for x in own_nodes(dv) if isinstance(x, ast.Call)]
+            dumps = [c2 for c2 in fed if call_name(c2) == "json.dumps"]
+            ok = len(dumps) >= 1 and all(isinstance(arg(c2, 0), ast.Name) and arg(c2, 0).id == djp[0] for c2 in dumps)
+        r.require(ok, dj, dj.loc(), "_dump_json_to_file does not write json.dumps(<its first parameter>) to the file")
+        lj = [c2 for c2 in calls_in_func(idx.func(SER + ".load")) if call_name(c2) == "json.load"]
+        r.require(len(lj) == 1, idx.func(SER + ".load"), idx.func(SER + ".load").loc(),
+                  "_LeaseStateSerializer.load no longer parses the file with json.load")
         # load reads the destination of save
         ld = idx.func(SER + ".load")
         opens = [c2 for c2 in calls_in_func(ld) if call_tail(c2) == "open"]
